@@ -56,6 +56,8 @@ type Invocation struct {
 	Reads   []string
 	ReadIDs []Value
 	Writes  []string
+	statuses []Value
+	MissedDeclared bool // a declared (w:) output was not written at all
 	RunID   int
 }
 
@@ -208,6 +210,9 @@ func (m *Machine) errVal(kind, msg string) Iface {
 
 func errKind(v Value) string {
 	if i, ok := v.(Iface); ok && i.T != nil {
+		if _, ok := i.V.(*Value); ok {
+			return "exit"
+		}
 		if e, ok := i.V.(*Ext); ok && e != nil {
 			return strings.TrimPrefix(e.Kind, "error:")
 		}
@@ -607,7 +612,7 @@ func (m *Machine) runVcmd(dir, text string, args []string) Value {
 		inv.Ended = true
 		inv.Exit = int64(1)
 		w.event(m, "cmd-end", int64(inv.N), int64(1), why)
-		return m.errVal("exit", "exit status 1 ("+why+")")
+		return m.exitError(int64(1))
 	}
 	// the hook can make commands block / rendezvous etc.
 	if w.CmdHook != nil {
@@ -645,6 +650,10 @@ func (m *Machine) runVcmd(dir, text string, args []string) Value {
 				}
 			}
 			inv.Writes = append(inv.Writes, ab)
+			inv.statuses = append(inv.statuses, st)
+			if a[0] == 'w' && st == int64(0) {
+				inv.MissedDeclared = true
+			}
 			if st == int64(0) {
 				continue
 			}
@@ -669,31 +678,42 @@ func (m *Machine) runVcmd(dir, text string, args []string) Value {
 			w.event(m, "cmd-write", int64(inv.N), ab)
 		}
 	}
-	// exit status
-	var exit Value = int64(0)
-	if w.CmdExitFree {
-		v := c.Var(fmt.Sprintf("cmd%d.exit", inv.N), 8)
-		m.declInput(&InputDecl{Name: v.Name, Kind: "int", Bits: 8, Term: v})
-		exit = v
-	}
-	inv.Exit = exit
+	// exit status. A command that exits 0 has written what it wrote completely: a partial
+	// file only goes with a failure (non-zero exit, or a kill).
 	inv.Ended = true
 	m.crashPoint("cmd-exit")
-	if t, ok := exit.(*sym.Term); ok {
-		if m.Decide(c.Eq(t, c.BV(8, 0))) {
-			inv.Exit = int64(0)
-			w.event(m, "cmd-end", int64(inv.N), int64(0))
-			return nil
+	if !w.CmdExitFree {
+		inv.Exit = int64(0)
+		w.event(m, "cmd-end", int64(inv.N), int64(0))
+		return nil
+	}
+	v := c.Var(fmt.Sprintf("cmd%d.exit", inv.N), 8)
+	m.declInput(&InputDecl{Name: v.Name, Kind: "int", Bits: 8, Term: v})
+	success := c.Eq(v, c.BV(8, 0))
+	for _, st := range inv.statuses {
+		if t, ok := st.(*sym.Term); ok {
+			success = c.And(success, c.Eq(t, c.BV(8, 2)))
 		}
-		w.event(m, "cmd-end", int64(inv.N), t)
-		return m.errVal("exit", "exit status (non-zero)")
 	}
-	if exit.(int64) != 0 {
-		w.event(m, "cmd-end", int64(inv.N), exit)
-		return m.errVal("exit", "exit status 1")
+	if m.Decide(success) {
+		inv.Exit = int64(0)
+		w.event(m, "cmd-end", int64(inv.N), int64(0))
+		return nil
 	}
-	w.event(m, "cmd-end", int64(inv.N), int64(0))
-	return nil
+	m.assertPC(c.Not(c.Eq(v, c.BV(8, 0))))
+	inv.Exit = v
+	w.event(m, "cmd-end", int64(inv.N), v)
+	return m.exitError(v)
+}
+
+// exitError builds an *exec.ExitError value: a real struct {*os.ProcessState; Stderr}
+// whose process state is a modelled object carrying the (possibly symbolic) status;
+// status 255 stands for "killed by a signal" (ExitCode() == -1).
+func (m *Machine) exitError(code Value) Iface {
+	ps := &Ext{Kind: "processstate", F: map[string]Value{"code": code}}
+	p := new(Value)
+	*p = Struct{ps, Slice(nil)}
+	return Iface{T: m.extType("exiterror"), V: p}
 }
 
 // deepCopy copies a value graph (used for JSON snapshots).
